@@ -77,6 +77,9 @@ Definition check (c : cval) : verdict :=
           if existsb (N.eqb pid) L_pids then
             (o_st o =? 0)%Z && (o_fl o =? Z.of_N fl)%Z && (o_sq o =? sq)%Z && (o_pid o =? Z.of_N pid)%Z
             && imap_eqb (o_im o) im && smap_eqb (o_sm o) sm
+            (* an empty (or nil) input map comes back nil, a non-empty one as a map *)
+            && (o_inil o =? (match im with [] => 1 | _ => 0 end))%Z
+            && (o_snil o =? (match sm with [] => 1 | _ => 0 end))%Z
             && nodupk N.eqb (keys (o_im o)) && nodupk beqb (keys (o_sm o))
             && (o_hlen o =? Z.of_N (len bs))%Z && (o_plen o =? Z.of_N (len payload))%Z
             && (o_rl o =? Z.of_N (len bs))%Z
